@@ -124,8 +124,8 @@ func runC01(c *Ctx) {
 		}
 	}
 	for _, a := range []struct{ short, fn, enq string }{
-		{"sio", "serverConn.sendBuffers", `\(\*sio\.serverConn\)\.packet`},
-		{"sio", "clientSocket._sendBuffers", `\(\*sio\.Manager\)\.packet`},
+		{"sio", "serverConn.sendBuffers", `\(\*sio\.serverConn\)\.packet|\(\*sio\.packetQueue\)\.add`},
+		{"sio", "clientSocket._sendBuffers", `\(\*sio\.Manager\)\.packet|\(\*sio\.packetQueue\)\.add`},
 	} {
 		fn := p.Fn(a.short, a.fn)
 		for _, cs := range CallsTo(Calls(fn), `eioparser\.NewPacket`) {
